@@ -1,9 +1,10 @@
 import Mfi.Driver.FxD
 import Mfi.Driver.PanicD
 import Mfi.Driver.InterestD
+import Mfi.Driver.IntegrD
 open Mfi.Driver
 
-def handlers : List (String → List Int → Option String) := [fxOp, panicOp, irOp]
+def handlers : List (String → List Int → Option String) := [fxOp, panicOp, irOp, igOp]
 
 def stepLine (line : String) : String :=
   match line.trimAscii.toString.splitOn " " with
